@@ -48,7 +48,7 @@ fn compartmentalize_map(map: &mut Mapping) {
     let keys = map
         .keys()
         .filter_map(Value::as_str)
-        .filter(|k| k.contains(ANY))
+        .filter(|k| k.contains(ANY) && *k != ANY)
         .map(str::to_string)
         .collect::<Vec<_>>();
 
